@@ -22,21 +22,47 @@ def csr_input(V, name, n, with_diag=True):
 
 class SqraNormalize(Contract):
     target = f"{REL}::sqra_normalize"
-    variants = ("csr",)
+    variants = ("csr", "dense")
     property_ids = ("C13",)
     expected = ("post:rows-sum-to-zero", "post:off-diagonal-unchanged")
 
     def setup(self, V, variant):
         n = V.int("n", lo=1)
+        if variant == "dense":
+            m = z3.Function("m_dense", z3.IntSort(), z3.IntSort(), z3.RealSort())
+            M = Mat(n, n, lambda i, j: Num(m(zint(i), zint(j)), False), elem="real")
+            V.env.update(n=n, M=M, m=m)
+            return [M], {}
         M, pat, data = csr_input(V, "M", n)
         V.env.update(n=n, M=M, pat=pat, data=data)
         return [M], {}
+
+    def post_dense(self, V, env, outcome):
+        from pyvc.lib_np import mat_rowsum_fn
+        ctx = V.ctx
+        R, M, n, m = outcome[1], env["M"], env["n"], env["m"]
+        if not isinstance(R, Mat):
+            V.oblige("post:result-is-dense", False)
+            return
+        i, j = z3.Int("i13"), z3.Int("j13")
+        rng = z3.And(i >= 0, i < n, j >= 0, j < n)
+        r = lambda a, b: as_real(to_num(R.buf.fn(a, b)))
+        rsM = ctx.__dict__["mat_rowsum_reg"].get((M.buf.id, 0))
+        if rsM is None:
+            raise Unsupported("the row sums of the input were never taken")
+        V.oblige("post:off-diagonal-unchanged", z3.Implies(z3.And(rng, i != j), r(i, j) == m(i, j)))
+        V.oblige("post:diagonal-reset", z3.Implies(z3.And(i >= 0, i < n), r(i, i) == m(i, i) - rsM(i)))
+        V.oblige("post:rows-sum-to-zero", z3.Implies(z3.And(i >= 0, i < n), mat_rowsum_fn(ctx, R)(i) == 0))
+        V.oblige("post:shape", z3.And(zint(R.rows) == n, zint(R.cols) == n))
+        V.oblige("frame:input-data-unchanged", z3.And(z3.BoolVal(M.buf.writes == 0), z3.Implies(rng, as_real(to_num(M.buf.fn(i, j))) == m(i, j))))
 
     def post(self, V, variant, env, outcome):
         ctx = V.ctx
         if outcome[0] != "return":
             V.oblige(f"post:no-exception[{outcome[1]}]", False)
             return
+        if variant == "dense":
+            return self.post_dense(V, env, outcome)
         R, M, n = outcome[1], env["M"], env["n"]
         if not isinstance(R, Sparse):
             V.oblige("post:result-is-sparse", False)
@@ -53,6 +79,8 @@ class SqraNormalize(Contract):
         ctx = V.ctx
         R, M, n = outcome[1], env["M"], env["n"]
         i = z3.Int("i13m")
+        if variant == "dense" and isinstance(R, Mat):
+            V.oblige("mustfail:diagonal-unchanged", z3.Implies(z3.And(i >= 0, i < n), as_real(to_num(R.buf.fn(i, i))) == env["m"](i, i)), kind="mustfail")
         if isinstance(R, Sparse):
             V.oblige("mustfail:diagonal-unchanged", z3.Implies(z3.And(i >= 0, i < n), as_real(R.dense(ctx, i, i)) == as_real(M.dense(ctx, i, i))), kind="mustfail")
 
